@@ -29,7 +29,58 @@ NONTRIVIAL = {
     "token": lambda c: any(("7e" in f or "2f" in f) for f in hexfields(c)),
 }
 
+NONTRIVIAL.update({
+    # parse: the text contains '~' or a '/' beyond the first byte
+    "parse": lambda c: any(("7e" in f or "2f" in f[3:]) for f in hexfields(c)),
+})
+
+NONTRIVIAL.update({
+    # tokens: at least two fields, or a text with an inner '/' or '~'
+    "tokens": lambda c: len(hexfields(c)) >= 2 or any(("7e" in f or "2f" in f[3:]) for f in hexfields(c)),
+    # index: any case other than the empty string
+    "index": lambda c: c not in ("idx x",),
+})
+
 PROPERTIES = {
+    "C04": {
+        "runs": [{"suite": "tokens"}],
+        "level_text": "Proved in Coq for all lists of byte strings and all valid pointer texts: the transliterated from_tokens (fold of pushes through Token::new) equals the flat-map spec; "
+                      "decoded tokens of from_tokens(L) are L, count = |L|; from_tokens(tokens(p)) = p for valid p; from_tokens is injective (text and list determine each other); "
+                      "front/back/get/components/is_root/count/split_front/split_back/parent - modelled through split_once/rsplit_once/find as in the code - agree with the list; "
+                      "with_trailing_token/with_leading_token/concat are snoc/cons/append; integer tokens are their decimal spelling and valid. "
+                      "Tie: every token list over 10 adversarial tokens up to length 4/5 and random lists up to 2000 tokens, build/iterate/accessors compared with the model and with a reference tokeniser.",
+        "rule": "suite tokens: every list over {\"\", a, ~, /, ~0, ~1, 01, -, é, a/b} up to length 4 (quick) / 5 (thorough) through from_tokens (ftok) and, spelled as a pointer, through all accessors (acc); "
+                "with_trailing/leading_token on the short ones; random lists up to 2000 tokens; non-trivial = at least two tokens or an escape; distinct = distinct case lines",
+    },
+    "C16": {
+        "runs": [{"suite": "index", "profile": "debug"}, {"suite": "index", "profile": "release"}],
+        "level_text": "Proved in Coq for all byte strings and all naturals: index_from_str s = Ok(Num n) iff n <= usize::MAX and s is the canonical decimal spelling of n (bridge to the stdlib's "
+                      "N.to_uint / N.of_uint round trip), Ok(Next) iff s = \"-\"; parse after Display and Display after parse are identities; each rejection is characterised by an iff "
+                      "(LeadingZeros, InvalidCharacter at the first non-digit byte with char() never panicking, InvalidInteger Empty / PosOverflow), the cases are exhaustive and exclusive; "
+                      "for_len / for_len_incl / for_len_unchecked exactly as stated, errors carrying (n, i). Token::to_index / is_next / TryFrom forms are literally from_str(encoded) in the source; "
+                      "their agreement is checked by the tie (all forms run per case), in debug and release builds.",
+        "rule": "suite index: every string over {- 0 1 9 + space a ١} up to length 5 (quick) / 6 (thorough), the 41 decimals within +-20 of 2^64, hand-picked overflow/sign/non-ASCII-digit strings, "
+                "every (index,length) pair over {0,1,2,MAX-1,MAX} and Next, random 1-26 digit strings with injected junk; debug and release; non-trivial = non-empty text; distinct = distinct case lines",
+    },
+    "C02": {
+        "runs": [{"suite": "parse"}],
+        "level_text": "Proved in Coq for all byte strings: the transliterated validate/validate_bytes scanner (with its skip-ahead) accepts exactly the grammar "
+                      "(empty, or leading '/' and every '~' followed by '0'/'1'), equivalently '/'-joined valid tokens; each of the eight door models returns that "
+                      "decision with the text unchanged (thin by construction: the doors are one-line wrappers, the assurance for them is the per-door tie). "
+                      "Per run every string over a 7-symbol alphabet up to length 5/6 (plus pointer-shaped strings one longer and random long ones) goes through all eight real doors "
+                      "(incl. from_static under catch_unwind and three serde deserializers) and is compared with the model and an independent recogniser.",
+        "rule": "suite parse: every string over {~ / 0 1 - a é} up to length 5 (quick) / 6 (thorough), '/'+string+bad-tail variants, seeded random strings up to 3000 symbols; each through all 8 doors; "
+                "non-trivial = contains '~' or an inner '/'; distinct = distinct case lines",
+    },
+    "C14": {
+        "runs": [{"suite": "parse"}],
+        "level_text": "Proved in Coq for all byte strings: NoLeadingSlash iff the non-empty input does not start with '/'; for InvalidEncoding the two loop counters are carried "
+                      "through the skip-ahead as an explicit invariant, giving complete_offset = index of the first '~' not followed by '0'/'1', pointer_offset = the nearest '/' at or before it, "
+                      "source_offset = their difference; the Report keeps error and input; the label (offset,len) lies inside the subject and starts at the offending '~' and its computation cannot panic. "
+                      "'Formatting never panics' is measured only (Display/Debug of error and report under catch_unwind on every rejected case). Tie: ParseError accessors, Report::{subject,original,decompose} "
+                      "and the Label's numbers (parsed from its Debug output) compared per case.",
+        "rule": "as C02 (suite parse); for every rejected string the accessors, the report and the label numbers are compared with the model and with an independent first-offence finder",
+    },
     "C03": {
         "runs": [{"suite": "token"}],
         "level_text": "Proved in Coq for all byte strings, no length bound: the transliterated Token::new equals the escape spec, decoded(new(s)) = s, "
